@@ -440,18 +440,31 @@ class Check(common.Check):
         return {'k': 'srvact', 'ops': ops}
 
     def g_notif(self, rng):
+        """several objects x several messages x several listeners, any order of register / unregister / notify"""
         ops = []
-        for _ in range(rng.randrange(2, 12)):
+        no, nm, nl = rng.randrange(1, 4), rng.randrange(1, 4), rng.randrange(1, 5)
+        for _ in range(rng.randrange(3, 22)):
             r = rng.random()
-            if r < 0.45:
-                ops.append(['register', 1, 'm', rng.randrange(4), rng.randrange(20)])
-            elif r < 0.6:
-                ops.append(['oneshot', 1, 'm', rng.randrange(4), rng.randrange(20)])
-            elif r < 0.75:
-                ops.append(['unregister', 1, 'm', rng.randrange(4)])
+            o, m, l = rng.randrange(no), rng.randrange(nm), rng.randrange(nl)
+            if r < 0.40:
+                ops.append(['register', o, m, l, rng.randrange(20)])
+            elif r < 0.50:
+                ops.append(['oneshot', o, m, l, rng.randrange(20)])
+            elif r < 0.64:
+                ops.append(['unregister', o, m, l])
+            elif r < 0.68:
+                ops.append(['unregister', o, m, None])
+            elif r < 0.70:
+                ops.append(['unregister', o, None, None])
+            elif r < 0.76:
+                ops.append(['exists', o, m, l])
+            elif r < 0.77:
+                ops.append(['clear'])
             else:
-                ops.append(['notify', 1, 'm'])
-        ops.append(['notify', 1, 'm'])
+                ops.append(['notify', o, m])
+        for o in range(no):
+            for m in range(nm):
+                ops.append(['notify', o, m])
         return {'k': 'notif', 'ops': ops}
 
     def gen_one(self, rng):
@@ -568,14 +581,19 @@ class Check(common.Check):
                     else:
                         lines.append(f'srv run {op[1]} {int(op[2])}')
             elif k == 'notif':
-                lines.append('not reset')
+                lines.append('nc reset')
+                d = lambda x: '-' if x is None else str(x)
                 for op in c['ops']:
                     if op[0] in ('register', 'oneshot'):
-                        lines.append(f'not {op[0]} {op[3]} {op[4]}')
+                        lines.append(f'nc {op[0]} {op[1]} {op[2]} {op[3]} {op[4]}')
                     elif op[0] == 'unregister':
-                        lines.append(f'not unregister {op[3]}')
+                        lines.append(f'nc unregister {op[1]} {d(op[2])} {d(op[3])}')
+                    elif op[0] == 'exists':
+                        lines.append(f'nc exists {op[1]} {op[2]} {op[3]}')
+                    elif op[0] == 'clear':
+                        lines.append('nc clear')
                     else:
-                        lines.append('not notify')
+                        lines.append(f'nc notify {op[1]} {op[2]}')
             spans.append((start, len(lines)))
         out, err = common.run_driver('Sc3Verif/C18/Driver.lean', lines)
         if out is None or len(out) != len(lines):
@@ -986,22 +1004,37 @@ class Check(common.Check):
         return None
 
     def oracle_notif(self, c, o):
-        reg = {}
+        reg = {}                                  # obj -> msg -> listener -> (action, one-shot)
         for i, op in enumerate(c['ops']):
-            if op[0] in ('register', 'oneshot'):
-                reg[op[3]] = (op[4], op[0] == 'oneshot')
-            elif op[0] == 'unregister':
-                want = 'ok' if op[3] in reg else 'err KeyError'
-                reg.pop(op[3], None)
-                if o[i] != want:
-                    return {'what': f'op #{i}: unregister answered {o[i]!r}, expected {want!r}', 'signature': 'c18:notification'}
+            k = op[0]
+            if k in ('register', 'oneshot'):
+                reg.setdefault(op[1], {}).setdefault(op[2], {})[op[3]] = (op[4], k == 'oneshot')
+                want = 'ok'
+            elif k == 'unregister':
+                _, ob, m, l = op
+                try:
+                    if m is None:
+                        del reg[ob]
+                    elif l is None:
+                        del reg[ob][m]
+                    else:
+                        del reg[ob][m][l]
+                    want = 'ok'
+                except KeyError:
+                    want = 'err KeyError'
+            elif k == 'exists':
+                want = str(op[3] in reg.get(op[1], {}).get(op[2], {}))
+            elif k == 'clear':
+                reg.clear(); want = 'ok'
             else:
-                want = 'notify ' + ' '.join(f'{a}:{l}' for l, (a, _) in reg.items())
-                for l in [l for l, (_, once) in reg.items() if once]:
-                    del reg[l]
-                if o[i].rstrip() != want.rstrip():
-                    return {'what': f'op #{i}: notify called {o[i]!r}, registered listeners: {want!r}',
-                            'signature': 'c18:notification'}
+                cur = reg.get(op[1], {}).get(op[2], {})
+                want = 'notify ' + ' '.join(f'{a}:{l}' for l, (a, _) in cur.items())
+                for l in [l for l, (_, once) in cur.items() if once]:
+                    del cur[l]
+            if o[i].rstrip() != want.rstrip():
+                return {'what': f'op #{i} {op}: NotificationCenter answered {o[i]!r}; the registrations made so far '
+                                f'(per object, message, listener, in registration order) say {want!r}',
+                        'signature': 'c18:notification', 'index': i}
         return None
 
     # ---- evidence bits ---------------------------------------------------------------------------
@@ -1046,4 +1079,5 @@ Check.THEOREMS = ['Sc3Verif.C18.' + t for t in (
     'dispatch_refines', 'dispatch_refines_state', 'dispatch_exact', 'dispatch_matching', 'only_enabled_fire', 'oneshot_fires_once',
     'malformed_no_dispatch', 'decoder_total', 'negative_element_size_rejected',
     'registry_runs_current', 'registry_runs_subsequence', 'registry_add_order', 'registry_remove_removes',
-    'server_action_remove_removes', 'server_action_run', 'notification_notify')]
+    'server_action_remove_removes', 'server_action_run', 'notification_notify',
+    'notification_center_notify', 'notification_unregister_local')]
